@@ -65,6 +65,24 @@ CHECKS = {
              "the statement and that iteration ends (no hang once EOF/reset has been delivered, StopIteration afterwards, no "
              "escaping exception). Liveness is judged on the virtual clock only.",
         note="Termination = the iterator ends within a bounded number of loop cycles after the transport ended (HarnessHang otherwise)."),
+    "C08": dict(
+        category="exploration", design_ref="DESIGN.md section 3 / C08",
+        technique="property-based testing of generated closing histories against a reference close state machine over events, decoded wire log and call results",
+        text="Hypothesis generates closing histories (who closes first, at which event, with which code/reason, repeated close(), "
+             "server messages before and between the Closes, application sends before/during/after, EOF timing, read segmentation) "
+             "and a reference close state machine checks: one Close frame with the given code/reason, later sends raise "
+             "WebSocketError and write nothing, incoming messages still delivered, Closed then graceful Disconnected and the "
+             "socket closed without waiting for EOF; server-first: Closing, sends allowed during that event and ahead of the echo, "
+             "echo with the same code, graceful Disconnected on EOF; always <= 1 Close and no data frame after it.",
+        note="Single-threaded histories only; frames after the server's own Close are not generated."),
+    "C14": dict(
+        category="exploration", design_ref="DESIGN.md section 3 / C14",
+        technique="property-based testing: ordering invariant over the recorded wire log of generated Ping-dense streams, plus metamorphic comparison with the fault-free run",
+        text="Generated Ping-dense conforming streams x auto_pong on/off x application reactions x close() at a drawn message x one "
+             "failing pong write. Invariant over the ordered wire log: library-written Pongs match the Ping events before the "
+             "client's Close one-to-one, in order, byte-exact, each written before its Ping event is yielded; none with auto_pong "
+             "off; a failed/refused pong leaves the event stream identical to the fault-free run.",
+        note="Library vs application writes are distinguished by who is running when sendall is called."),
 }
 
 PENDING = {}
